@@ -32,7 +32,7 @@ type IterOp struct {
 	Cons string `json:"c,omitempty"`
 }
 
-var IterExcs = []string{"ValueError", "ValueError(\"v\")", "KeyError(\"k\")", "ZeroDivisionError", "TypeError(\"t\")", "IndexError"}
+var IterExcs = []string{"ValueError", "ValueError(\"P:v\")", "KeyError(\"P:k\")", "ZeroDivisionError", "TypeError(\"P:t\")", "IndexError", "TypeError", "AttributeError(\"P:a\")"}
 var IterStops = []string{"StopIteration", "StopIteration()", "StopIteration(77)"}
 
 var IterConsumers = []string{
@@ -42,7 +42,7 @@ var IterConsumers = []string{
 }
 
 var iterWrappers = []string{"deleg", "map", "filter", "genexp", "zipl", "enum", "deleg"}
-var iterLeaves = []string{"gen", "gen", "gen", "iter", "iter", "seq", "list", "range", "tuple", "genfin", "genleak"}
+var iterLeaves = []string{"gen", "gen", "gen", "iter", "iter", "seq", "list", "range", "tuple", "genfin", "genleak", "coro"}
 
 // IterExclude lists features that must not be generated (known findings).
 type IterExclude map[string]bool
@@ -159,7 +159,7 @@ func (p *IterProg) yieldsTuples(g int) bool {
 func (p *IterProg) sendable(g int) bool {
 	for i := 0; g >= 0 && i < 10; i++ {
 		switch p.Prods[g].Kind {
-		case "gen":
+		case "gen", "genfin", "coro":
 			return true
 		case "deleg":
 			g = p.Prods[g].Sub
@@ -174,7 +174,27 @@ const iterPrelude = `from simlog import log, exc_name
 def sargs(e):
     if exc_name(e) == "StopIteration":
         return e.args
+    # exceptions injected by a producer carry a marked payload: it must arrive unchanged
+    a = e.args
+    if len(a) == 1 and isinstance(a[0], str) and a[0][:2] == "P:":
+        return a
     return None
+class Coro:
+    def __init__(self, tag, n):
+        self.tag = tag
+        self.i = 0
+        self.n = n
+    def __iter__(self):
+        return self
+    def __next__(self):
+        return self.send(None)
+    def send(self, v):
+        log(self.tag, "csend", v)
+        i = self.i
+        self.i = i + 1
+        if i >= self.n:
+            raise StopIteration(self.tag * 100 + 96)
+        return self.tag * 100 + i
 class It:
     def __init__(self, tag, n, fail, exc, stop):
         self.tag = tag
@@ -303,6 +323,8 @@ func (p *IterProg) Render() string {
 				e = fmt.Sprintf("genfin(%d, %d, %d, %s)", pr.Tag, pr.N, pr.Fail, exc)
 			case "genleak":
 				e = fmt.Sprintf("genleak(%d, %d)", pr.Tag, pr.N)
+			case "coro":
+				e = fmt.Sprintf("Coro(%d, %d)", pr.Tag, pr.N)
 			case "iter":
 				e = fmt.Sprintf("It(%d, %d, %d, %s, %s)", pr.Tag, pr.N, pr.Fail, exc, pr.Stop)
 			case "seq":
